@@ -135,6 +135,10 @@ pub fn run_one(tr: &RunTrace, opts: &RunOpts) -> RunReport {
         HEAP_FILL.store((tr.knobs.heap as u8) ^ 0x5a | 1, Ordering::Relaxed);
     }
     let pending = std::mem::take(&mut *world.pending.lock().unwrap_or_else(std::sync::PoisonError::into_inner));
+    // the float battery under Miri exists for C07's second sentence (values reaching unchecked
+    // numeric steps); float images have no layout a rebuild could vary, so re-evaluating every
+    // conversion would only double the cost
+    let pending = if opts.miri && tr.knobs.scn == 5 { Vec::new() } else { pending };
     let mut deep_budget = if opts.miri { 1usize } else { 60 };
     for p in &pending {
         if matches!(p.outcome, Outcome::Panic(PanicClass::Logger)) {
@@ -285,7 +289,7 @@ pub fn run_one(tr: &RunTrace, opts: &RunOpts) -> RunReport {
     c.insert("sched_yield_points", sched_report.yields);
     c.insert("sched_switches", sched_report.switches);
     c.insert("sched_fallback_free_running", u64::from(sched_report.fell_back_to_free_running));
-    c.insert(["scenario_random_mix", "scenario_contention", "scenario_sweep", "scenario_battery", "scenario_clone_family"][(tr.knobs.scn as usize).min(4)], 1);
+    c.insert(["scenario_random_mix", "scenario_contention", "scenario_sweep", "scenario_battery", "scenario_clone_family", "scenario_float_battery", "scenario_huge_image"][(tr.knobs.scn as usize).min(6)], 1);
     c.insert("runs_with_stress_phase", u64::from(tr.knobs.stress > 0));
     c.insert("runs_with_immediate_repetition", u64::from(tr.knobs.repeat != 0));
 
